@@ -7,6 +7,7 @@
 //!   lad <k> <maxterm> <sets>              trie construction + unite           -> ok <k> <prods> <trans3> | conflict
 //!   cmp <k> <maxterm> <sets>              … + compile + minimise              -> ok <prod0> <trans4> <k> | conflict
 //!   min <k> <prods> <trans3>              compile + minimise of a given DFA   -> ok <prod0> <trans4> <k>
+//!   ord <k> <prods> <trans3>              same, repeated 8 times (fresh hash orders) -> ok <prod0> <trans4> <k> | differ
 //!   e2e <maxk> <start> <prods> <blocks>   whole real pipeline on a grammar    -> ok <nt>@<prod0>@<trans4>@<k>/…
 //! `<sets>` = `p=tuple|tuple;p=…` (`p=-` empty set, tuple = comma list of terminal indices, `e` = ε),
 //! `<blocks>` = `<nt>@<k>@<maxterm>@<sets>/…` (the tuple sets the real analysis computes for the
@@ -197,6 +198,25 @@ fn normal(k: usize, sets: &Sets) -> Option<()> {
     Some(())
 }
 
+fn parse_lad(k: &str, prods: &str, trans: &str) -> Option<LookaheadDFA> {
+    let prods: Vec<i32> = parse_nats(prods)?;
+    let mut d = LookaheadDFA {
+        states: prods.iter().enumerate().map(|(id, p)| DFAState { id, prod_num: *p }).collect(),
+        transitions: BTreeMap::new(),
+        k: k.parse().ok()?,
+    };
+    if trans != "-" {
+        for t in trans.split(';') {
+            let p: Vec<&str> = t.split(':').collect();
+            if p.len() != 3 {
+                return None;
+            }
+            d.transitions.entry(p[0].parse().ok()?).or_default().insert(p[1].parse().ok()?, p[2].parse().ok()?);
+        }
+    }
+    Some(d)
+}
+
 pub fn run_case(w: &[&str]) -> Option<String> {
     match w {
         ["lad", k, maxterm, sets] => {
@@ -219,23 +239,19 @@ pub fn run_case(w: &[&str]) -> Option<String> {
             })
         }
         ["min", k, prods, trans] => {
-            let prods: Vec<i32> = parse_nats(prods)?;
-            let mut d = LookaheadDFA {
-                states: prods.iter().enumerate().map(|(id, p)| DFAState { id, prod_num: *p }).collect(),
-                transitions: BTreeMap::new(),
-                k: k.parse().ok()?,
-            };
-            if *trans != "-" {
-                for t in trans.split(';') {
-                    let p: Vec<&str> = t.split(':').collect();
-                    if p.len() != 3 {
-                        return None;
-                    }
-                    d.transitions.entry(p[0].parse().ok()?).or_default().insert(p[1].parse().ok()?, p[2].parse().ok()?);
-                }
-            }
+            let d = parse_lad(k, prods, trans)?;
             let (p0, tr, k) = compile(&d)?;
             Some(format!("ok {}", show_auto(p0, &tr, k, " ")))
+        }
+        ["ord", k, prods, trans] => {
+            let d = parse_lad(k, prods, trans)?;
+            let first = compile(&d)?;
+            for _ in 0..7 {
+                if compile(&d)? != first {
+                    return Some("differ".into());
+                }
+            }
+            Some(format!("ok {}", show_auto(first.0, &first.1, first.2, " ")))
         }
         ["e2e", maxk, start, prods, blocks] => {
             let g = Gram::parse(start, prods)?;
@@ -345,7 +361,17 @@ fn random_dag(rng: &mut Rng, wild: bool) -> (usize, Vec<i32>, Vec<(usize, u16, u
     let mut edges: Vec<(usize, u16, usize)> = vec![];
     let mut has_out = vec![false; n];
     for li in 0..depth {
-        for &s in &layers[li] {
+        for (si, &s) in layers[li].iter().enumerate() {
+            if si > 0 && rng.chance(1, 3) {
+                // a twin: the same successor list as an earlier state of the layer (mergeable)
+                let s0 = layers[li][rng.below(si)];
+                let copy: Vec<(usize, u16, usize)> = edges.iter().filter(|e| e.0 == s0).map(|e| (s, e.1, e.2)).collect();
+                if !copy.is_empty() {
+                    has_out[s] = true;
+                }
+                edges.extend(copy);
+                continue;
+            }
             for a in 0..alpha {
                 if rng.chance(2, 3) {
                     let lj = if wild && rng.chance(1, 8) { rng.range(0, depth) } else { rng.range(li + 1, depth) };
@@ -356,10 +382,23 @@ fn random_dag(rng: &mut Rng, wild: bool) -> (usize, Vec<i32>, Vec<(usize, u16, u
             }
         }
     }
+    // Accepting inner states only together with a single production: with several productions the
+    // real `minimize` merges the accepting states per production in hash order and `Neighbors::append`
+    // deduplicates while `rename_neighbor` does not, so the resulting neighbour lists (duplicates or
+    // not) depend on that order — outside C07's hypotheses, and not reproducible for a tie.
+    let inner_acc = wild && rng.chance(1, 2);
     let mut prods: Vec<i32> = (0..n)
-        .map(|s| if !has_out[s] || (wild && rng.chance(1, 6)) { rng.below(nprods) as i32 + 1 } else { -1 })
+        .map(|s| {
+            if inner_acc && (!has_out[s] || rng.chance(1, 4)) {
+                1
+            } else if !has_out[s] {
+                rng.below(nprods) as i32 + 1
+            } else {
+                -1
+            }
+        })
         .collect();
-    if has_out[0] && !wild {
+    if has_out[0] && !inner_acc {
         prods[0] = -1;
     }
     // permute state numbers 1..n
@@ -382,7 +421,7 @@ pub fn generate(seed: u64, thorough: bool) -> Vec<String> {
     let mut rng = Rng::new(seed ^ 0xC07);
     let mut out = vec![];
     // (a) random pairwise disjoint prefix-free tuple sets -> trie/unite and compiled automaton
-    let nsets = if thorough { 2500 } else { 500 };
+    let nsets = if thorough { 30000 } else { 2000 };
     for i in 0..nsets {
         let k = if i % 10 == 0 { 0 } else { rng.range(1, 3) };
         let alpha = rng.range(1, 3);
@@ -406,20 +445,21 @@ pub fn generate(seed: u64, thorough: bool) -> Vec<String> {
         out.push(format!("{} {} {} {}", op, k, 12, show_sets(&sets)));
     }
     // (b) compile + minimise of given automata
-    let ndag = if thorough { 2500 } else { 500 };
+    let ndag = if thorough { 30000 } else { 2000 };
     for i in 0..ndag {
         let (depth, prods, edges) = random_dag(&mut rng, i % 5 == 4);
         let es = if edges.is_empty() { "-".to_string() } else { edges.iter().map(|e| format!("{}:{}:{}", e.0, e.1, e.2)).collect::<Vec<_>>().join(";") };
-        out.push(format!("min {} {} {}", depth, show_nats(&prods), es));
+        out.push(format!("{} {} {} {}", if i % 3 == 2 && i % 5 != 4 { "ord" } else { "min" }, depth, show_nats(&prods), es));
     }
     // (c) end to end: random grammars accepted by the real LL(k) analysis
-    let want = if thorough { 1500 } else { 250 };
+    let want = if thorough { 12000 } else { 800 };
     let maxk = 4;
     let mut got = 0;
     let mut tries = 0;
     while got < want && tries < want * 200 {
         tries += 1;
-        let c = GenCfg { max_nts: 5, max_terms: 3, max_prods_per_nt: 3, max_rhs: 3, nt_bias: 4, allow_undefined: false };
+        let big = thorough && tries % 4 == 0;
+        let c = GenCfg { max_nts: if big { 6 } else { 5 }, max_terms: if big { 4 } else { 3 }, max_prods_per_nt: 3, max_rhs: if big { 4 } else { 3 }, nt_bias: 4, allow_undefined: false };
         let g = random_gram(&mut rng, &c);
         let Some((_, infos, _)) = std::panic::catch_unwind(|| analyse(&g, maxk)).ok().flatten() else { continue };
         let kmax = infos.iter().map(|b| b.k).max().unwrap_or(0);
